@@ -147,6 +147,11 @@ known("C05", r"^asm_data\|FCC/[^|]*\|(C05:fcc-bytes|C02:size|C05:accepted|C13:no
       "FCC does not emit exactly the characters between the delimiters when the string starts or ends with a space (stripped), "
       "contains ';' (dropped) or a punctuation character (a space is put in front / the string is rejected or crashes)",
       {"asm": [" FCC \"A;B\""]}, also=("C02", "C13"))
+known("C05", r"^asm_data\|FCC/[^|]*\|C05:fcc-bytes\|FCC/[^:]*:count=\d+,want=\d+:chars=((alnum|punct|semicolon|quote|slash),)+space,space(,[a-z]+)*$",
+      "FCC: the FIRST run of blanks inside the string is replaced by one blank (the text is split into operand and comment "
+      "at white space and glued together again): FCC 'a  0' emits 'a 0'", {"asm": [" FCC 'a  0'"]}, also=("C02",))
+known("C05", r"^asm_data\|FCC/concrete/\d+\|C05:fcc-bytes\|FCC-concrete:mismatch:'(a  0|two   gaps  )'",
+      "the same defect on concrete strings whose first gap is wider than one blank", {"asm": [" FCC \"a  0\""]})
 known("C05", r"^asm_data\|FCC/concrete/\d+\|(C05:fcc-bytes|C05:accepted|C13:no-internal-error)\|FCC-concrete:\w+:'(x;y|tab\\there|~\|\{\})'",
       "same FCC defect on concrete strings with ';', a tab or punctuation", {"asm": [" FCC \"x;y\""]}, also=("C13",))
 known("C13", r"^asm_data\|empty/(FCB|FDB|FCC|RMB|ORG|EQU)\|C13:no-internal-error\|empty/\w+:escape:\w+",
